@@ -27,6 +27,14 @@ pub struct Case {
     pub cfg: Vec<i64>,
     pub actors: Vec<Actor>,
     pub sched: Vec<Seg>,
+    /// 1 = store buffering: non-SeqCst stores of may's atomics may be re-ordered after later
+    /// loads of the same thread (sched.rs); 0 = sequentially consistent interleavings only
+    #[serde(default, skip_serializing_if = "is_zero")]
+    pub weak: u8,
+}
+
+fn is_zero(v: &u8) -> bool {
+    *v == 0
 }
 
 impl Case {
